@@ -38,7 +38,13 @@ def run(tier, seed):
             c.broken_correspondence("model-extraction", None, V.tail(mlog, 40))
         else:
             n = 60 if tier == "quick" else 4000
-            rc, out, cases, st = V.run_harness("c18", "c18", seed, n, tier)
+            # the command itself (cli/cli.go default module paths): built from the current tree
+            gojq = os.path.join(V.BUILD, "gojq-c18")
+            rcb, outb = V.sh(["go", "build", "-o", gojq, "./cmd/gojq"], cwd=V.REPO, env=V.go_env(), timeout=900)
+            extra = ["gojq=" + gojq] if rcb == 0 else []
+            if rcb != 0:
+                c.broken_correspondence("gojq-build", None, V.tail(outb, 30))
+            rc, out, cases, st = V.run_harness("c18", "c18", seed, n, tier, extra=extra)
             if rc != 0:
                 c.broken_correspondence("harness-run", None, V.tail(out, 40))
             else:
